@@ -53,6 +53,10 @@ theorem mapL_add_comm (v : List Fl) (s : Fl) : mapL Fl.add s v = mapR Fl.add v s
 theorem eq_ofVal_one (v : Val) : Fl.eq (Fl.ofVal v) (Fl.fin 1) = isOne v := by
   cases v <;> simp [Fl.ofVal, Fl.eq, isOne]
 
+/-- `1 == x` is `x == 1` -/
+theorem one_eq_ofVal (v : Val) : Fl.eq (Fl.fin 1) (Fl.ofVal v) = isOne v := by
+  cases v <;> simp [Fl.ofVal, Fl.eq, isOne, eq_comm]
+
 theorem le_fin_ofVal (thr : ℚ) (v : Val) : Fl.le (Fl.fin thr) (Fl.ofVal v) = geThr thr v := by
   cases v with
   | nan => rfl
@@ -254,6 +258,16 @@ theorem imin_succ (n hi : Nat) (hn : 0 < n) :
   unfold PyExpr.imin
   split <;> omega
 
+/-- `max(min_idx - 1, 0)` is `max(0, min_idx - 1)` -/
+theorem imax_pred' (lo : Nat) : PyExpr.imax ((lo : Int) - 1) 0 = ((lo - 1 : Nat) : Int) := by
+  unfold PyExpr.imax
+  split <;> omega
+
+theorem imin_succ' (n hi : Nat) (hn : 0 < n) :
+    PyExpr.imin ((hi : Int) + 1) ((n : Int) - 1) = ((min (n - 1) (hi + 1) : Nat) : Int) := by
+  unfold PyExpr.imin
+  split <;> omega
+
 /-! ## `compute_interval_bounds` -/
 
 /-- what the two final subscripts `disp_interval[min_idx]`, `disp_interval[max_idx]` give: the two disparities, or a
@@ -331,7 +345,8 @@ theorem computeIntervalBounds_generated_run (sort : List Fl → List Int) (hsort
       cases L with
       | nil => exact absurd rfl hLne
       | cons a l => rfl
-    simp only [hmin, hmax, hLlen, hLnonempty, hsame, hne1, getAt_ofVal, eq_ofVal_one, imax_pred, imin_succ _ _ hlen,
+    simp only [hmin, hmax, hLlen, hLnonempty, hsame, hne1, getAt_ofVal, eq_ofVal_one, one_eq_ofVal, imax_pred, imax_pred',
+      imin_succ _ _ hlen, imin_succ' _ _ hlen,
       PyVec.len, List.length_map, inRange_cast, hlo, hhi, hbi, boundsRes]
     have hlook : ∀ a b : Nat,
         (if (inRange (((embedQ disp).length : Nat) : Int) (a : Int) && inRange (((embedQ disp).length : Nat) : Int) (b : Int)) = true
@@ -344,10 +359,18 @@ theorem computeIntervalBounds_generated_run (sort : List Fl → List Int) (hsort
       rw [e, inRange_cast, inRange_cast]
       by_cases ha : a < disp.length <;> by_cases hb : b < disp.length <;>
         simp [ha, hb, getAt_embedQ]
+    -- the two subscripts may be tested in either order
+    have hlook' : ∀ a b : Nat,
+        (if (inRange (((embedQ disp).length : Nat) : Int) (b : Int) && inRange (((embedQ disp).length : Nat) : Int) (a : Int)) = true
+          then PyVec.Res.ok (getAt Fl.nan (embedQ disp) (a : Int), getAt Fl.nan (embedQ disp) (b : Int))
+          else PyVec.Res.shapeError)
+        = if a < disp.length ∧ b < disp.length then PyVec.Res.ok (Fl.fin (disp.getD a 0), Fl.fin (disp.getD b 0))
+          else PyVec.Res.shapeError := by
+      intro a b; rw [Bool.and_comm]; exact hlook a b
     have hd : decide ((L.length : Int) ≠ 0) = true := by simpa using hLlen
     cases h1 : isOne (P.getD lo Val.nan) <;> cases h2 : isOne (P.getD hi Val.nan) <;>
       simp only [hd, hPlen, Bool.false_eq_true, if_false, if_true, decide_true, Bool.and_true, Bool.true_and] <;>
-      exact hlook _ _
+      first | exact hlook _ _ | exact hlook' _ _
 
 /-- the two indices of the hand model are inside the curve and ordered -/
 theorem boundIdx_lt (thr : ℚ) (P : List Val) (lo hi : Nat) (h : boundIdx thr P = some (lo, hi)) :
